@@ -263,6 +263,9 @@ FIXED = {
     "paren_target": lambda n: "(" * n + "a" + ")" * n + " = 1\n",
     "list_target": lambda n: "[" * n + "a" + "]" * n + " = 1\n",
     "for_target": lambda n: "for " + "(" * n + "a," + ")" * n + " in x: pass\n",
+    "del_paren": lambda n: "del " + "(" * n + "a" + ")" * n + "\n",
+    "del_bracket": lambda n: "del " + "[" * n + "a" + "]" * n + "\n",
+    "del_paren_attr": lambda n: "del " + "(" * n + "a.b" + ")" * n + ", c\n",
     "del_nested": lambda n: "del " + "(" * n + "a," + ")" * n + "\n",
     "with_nested_paren": lambda n: "with " + "(" * n + "a" + ")" * n + ": pass\n",
     "annot": lambda n: "x: " + "A[" * n + "int" + "]" * n + " = 1\n",
@@ -317,6 +320,12 @@ FIXED = {
     "chain_trailing_op": lambda n: "x = " + " + ".join(["a"] * n) + " +\n",
     "args_bad_tail": lambda n: "f(" + ",".join(["a"] * n) + " b)\n",
     "stmts_then_error": lambda n: "a = 1\n" * n + "b c\n",
+    "elif_then_error": lambda n: "if a:\n pass\n" + "elif b:\n pass\n" * n + "x = = 1\n",
+    "elif_else_then_error": lambda n: "if a:\n pass\n" + "elif b:\n pass\n" * n + "else:\n pass\nf(a b)\n",
+    "cases_then_error": lambda n: "match x:\n" + " case 1: pass\n" * n + "import\n",
+    "excepts_then_error": lambda n: "try:\n pass\n" + "except A: pass\n" * n + "x y\n",
+    "decorators_then_error": lambda n: "@a\n" * n + "def f(): pass\nreturn = 1\n",
+    "with_items_then_error": lambda n: "with " + ", ".join(["a as b"] * n) + ": pass\n1 1\n",
     "list_binop_items_bad": lambda n: "[" + "a-b, " * n + " b] ]\n",
     "tuple_binop_items_bad": lambda n: "a-b, " * n + " b )\n",
     "list_call_items_bad": lambda n: "[" + "f(a), " * n + " b] ]\n",
@@ -328,7 +337,7 @@ BREADTH = {
     "dict_items", "list_items", "call_args", "call_kwargs", "binop_chain", "boolop_chain", "compare_chain", "attr_chain", "call_chain", "subscript_chain",
     "statements", "if_blocks", "def_blocks", "for_else_blocks", "with_blocks", "try_blocks", "class_blocks", "while_nested_blocks", "match_blocks", "with_macro_blocks", "semicolons", "string_pieces", "assign_chain", "target_tuple", "lambda_params", "def_params", "type_params", "decorators", "elif", "cases",
     "match_or", "except_clauses", "with_items", "import_names", "global_names", "star_args", "subproc_words", "subproc_glued", "subproc_env", "pipes",
-    "macro_args", "fstring_fields", "fstr_spec", "comp_fors", "comp_ifs", "slices_tuple", "help_chain", "and_or_xonsh", "chain_trailing_op", "args_bad_tail", "stmts_then_error", "list_binop_items_bad", "tuple_binop_items_bad", "list_call_items_bad", "list_subscript_items_bad",
+    "macro_args", "fstring_fields", "fstr_spec", "comp_fors", "comp_ifs", "slices_tuple", "help_chain", "and_or_xonsh", "chain_trailing_op", "args_bad_tail", "stmts_then_error", "list_binop_items_bad", "tuple_binop_items_bad", "list_call_items_bad", "list_subscript_items_bad", "elif_then_error", "elif_else_then_error", "cases_then_error", "excepts_then_error", "decorators_then_error", "with_items_then_error",
 }
 
 
